@@ -51,7 +51,7 @@ CLAIMED = {
         "injective; the full splice loss is the sum over acting splices; the temperature conformance test is sound over Q. Conformance on real "
         "calibration results: named parameters and *_var compared exactly with p_val / diag(p_cov) through the layout, tmpf/tmpb recomputed in exact "
         "dyadic arithmetic (2^-30 relative), method='external' round trip bit-identical. The translator is validated against the running classes "
-        "for every nt,nx<=8, nta<=3 on each run (exhaustive).",
+        "for every nt,nx<=8, nta<=3 on each run (exhaustive). Added: Gen/GenMasks.v (regenerated) lists the comparison operator of every `location OP splice position` in the source; C04_splice_convention_is_uniform proves that all ~30 sites apply forward loss at x >= ta and backward loss at x < ta and that every function that has to apply the convention does.",
    ref="5/C04", note=TB + "translator vlib/translators/layout.py (fail-closed grammar); ln(st/ast) is an input of the model.",
    technique="Coq proof over translator-regenerated index arithmetic + exhaustive translation validation + exact conformance via vm_compute"),
  "C01": dict(
